@@ -127,6 +127,7 @@ let iso (m : ogram) (g : ogram) (fixed : string list) : bool =
 (* ---- per-case state *)
 let k_len = if tier = "thorough" then 7 else 6
 let lang_fuel = nat_of_int 400
+let cpu_budget = if tier = "thorough" then 900.0 else 200.0
 
 let stats : (string, int) Hashtbl.t = Hashtbl.create 64
 let bump k = Hashtbl.replace stats k (1 + try Hashtbl.find stats k with Not_found -> 0)
@@ -163,6 +164,9 @@ let () =
   (try
     while true do
       let line = input_line stdin in
+      (* global CPU budget: a badly broken implementation makes many cases slow (huge outputs, long
+         mismatch reports); what was found so far is reported, the rest of the batch is skipped *)
+      if Sys.time () > cpu_budget then begin bump "batch_truncated_cpu_budget"; raise End_of_file end;
       if String.length line > 0 && line.[0] <> '#' then begin
         incr lineno; incr cases;
         let parts = List.map trim (split_on line "|") in
